@@ -365,4 +365,3 @@ func TestC18(t *testing.T) {
 		runtime.KeepAlive(rp)
 	}
 }
-
